@@ -85,9 +85,63 @@ def _raise_guards(f: Func, r: ast.Raise):
     return out
 
 
+def _predicate_call_is_elapsed(ctx, f: Func, e: ast.AST) -> bool:
+    """`self.helper()` where the helper's every return is an elapsed/deadline comparison."""
+    if not (isinstance(e, ast.Call) and isinstance(e.func, ast.Attribute) and norm(e.func.value) == "self" and not e.args):
+        return False
+    h = ctx.tree.find_method(f.cls, e.func.attr)
+    if h is None:
+        return False
+    rets = [x.value for x in h.own_nodes() if isinstance(x, ast.Return) and x.value is not None]
+    return bool(rets) and all(elapsed_compare(x) for x in rets)
+
+
+def rule_deadline_coherent(ctx, rep, rid: str) -> None:
+    """A cached absolute deadline (self.D = self.start_time + self.time_limit) is derived state: whoever writes
+    start_time of an interpreter must refresh D of the same interpreter, or every comparison against D measures the
+    wrong evaluation (or none: D stays None for an interpreter whose clock was inherited)."""
+    from ..util import derived_deadline_attrs
+
+    rep.rule(rid, "a cached deadline derived from start_time and time_limit is refreshed by every function that writes start_time of the same interpreter (or the interpreter keeps no cached deadline)", floor=1)
+    lc = ctx.facts.limit_check()
+    dattrs = derived_deadline_attrs(ctx.tree, lc.cls)
+    if not dattrs:
+        rep.ok(rid, "no-cached-deadline", {"note": "the time checks compute clock() - start_time > time_limit directly"})
+        return
+    computing = set()
+    for m in lc.cls.all_methods:
+        if any(isinstance(n, ast.Assign) and any(isinstance(t, ast.Attribute) and t.attr in dattrs and norm(t.value) == "self" for t in n.targets) for n in m.own_nodes()):
+            computing.add(m.name)
+    for f in ctx.tree.funcs:
+        if f.module.name not in ("vm", "context"):
+            continue
+        for n in f.own_nodes():
+            if not isinstance(n, ast.Assign):
+                continue
+            for t in n.targets:
+                if isinstance(t, ast.Attribute) and t.attr == "start_time":
+                    recv = norm(t.value)
+                    key = f"{f.qual}:{recv}.start_time"
+                    refreshed = False
+                    for x in f.own_nodes():
+                        if isinstance(x, ast.Assign) and any(isinstance(t2, ast.Attribute) and t2.attr in dattrs and norm(t2.value) == recv for t2 in x.targets):
+                            refreshed = True
+                        if isinstance(x, ast.Call) and isinstance(x.func, ast.Attribute) and norm(x.func.value) == recv and x.func.attr in computing and x.lineno >= n.lineno:
+                            refreshed = True
+                    if f.name in computing and recv == "self":
+                        refreshed = True
+                    if refreshed:
+                        rep.ok(rid, key)
+                    else:
+                        rep.bad(rid, key, f"{f.qual} sets {recv}.start_time but not the cached deadline ({', '.join(sorted(dattrs))}) of the same interpreter: its time checks compare the clock with a stale or missing deadline, so the evaluation is not bounded by its time limit", f"{f.module.rel}:{n.lineno}")
+
+
 def rule_time_check_shape(ctx, rep, rid: str) -> None:
     rep.rule(rid, "the limit check compares a clock reading minus start_time with time_limit and raises TimeLimitError, guarded only by 'limit configured' and 'every K-th instruction' (1<=K<=10000), outside any try", floor=1)
     lc = ctx.facts.limit_check()
+    from ..util import derived_deadline_attrs
+
+    dattrs = derived_deadline_attrs(ctx.tree, lc.cls)
     env = single_assignments(lc)
     rs = raises_in(lc.body(), "TimeLimitError")
     loc = lc.loc
@@ -107,7 +161,9 @@ def rule_time_check_shape(ctx, rep, rid: str) -> None:
             txt = norm(a2)
             if pol and elapsed_compare(a2):
                 have_elapsed = True
-            elif pol and txt in ("self.time_limit", "self.time_limit is not None"):
+            elif pol and _predicate_call_is_elapsed(ctx, lc, a2):
+                have_elapsed = True
+            elif pol and txt in ("self.time_limit", "self.time_limit is not None") or (pol and txt in {f"self.{d} is not None" for d in dattrs}):
                 pass
             elif pol and isinstance(a2, ast.Compare) and isinstance(a2.ops[0], ast.Eq) and isinstance(a2.left, ast.BinOp) and isinstance(a2.left.op, ast.Mod):
                 k = a2.left.right
@@ -430,6 +486,42 @@ def _lca(a: ast.AST, b: ast.AST) -> Optional[ast.AST]:
     return None
 
 
+def deadline_factory(ctx, fn: Func) -> bool:
+    """fn returns, on every path, either None under `self.time_limit is None` (no limit configured) or a closure
+    defined in fn whose result is clock() - self.start_time > self.time_limit."""
+    rets = [x for x in fn.own_nodes() if isinstance(x, ast.Return)]
+    if not rets:
+        return False
+    n_closure = 0
+    for r in rets:
+        v = r.value
+        if v is None or (isinstance(v, ast.Constant) and v.value is None):
+            g = [norm(t) for t, pol in guards_of(r, fn.node) if pol]
+            if not any(x.replace(" ", "") in ("self.time_limitisNone", "notself.time_limit") for x in g):
+                return False
+            continue
+        if isinstance(v, ast.IfExp) and isinstance(v.orelse, ast.Constant) and v.orelse.value is None and norm(v.test).replace(" ", "") in ("self.time_limit", "self.time_limitisnotNone"):
+            v = v.body  # `<callback> if self.time_limit else None`
+        if isinstance(v, ast.Attribute) and norm(v.value) == "self":
+            h = ctx.tree.find_method(fn.cls, v.attr) if fn.cls is not None else None
+            hr = [x.value for x in h.own_nodes() if isinstance(x, ast.Return) and x.value is not None] if h is not None else []
+            if hr and all(elapsed_compare(x) for x in hr):
+                n_closure += 1
+                continue
+            return False
+        if isinstance(v, ast.Name) and v.id in fn.children:
+            c = fn.children[v.id]
+            crets = [x.value for x in c.own_nodes() if isinstance(x, ast.Return) and x.value is not None]
+            if not crets or not all(elapsed_compare(x) for x in crets):
+                return False
+            if any(norm(a.value) != "self" for x in crets for a in ast.walk(x) if isinstance(a, ast.Attribute) and a.attr in ("start_time", "time_limit")):
+                return False
+            n_closure += 1
+            continue
+        return False
+    return n_closure >= 1
+
+
 def _callback_def_ok(ctx, f: Func, name: str, site: ast.AST) -> Tuple[bool, List[str], int]:
     """All definitions of local `name` in f are None or deadline closures. Returns (ok, problems, n_closures)."""
     probs: List[str] = []
@@ -444,6 +536,19 @@ def _callback_def_ok(ctx, f: Func, name: str, site: ast.AST) -> Tuple[bool, List
                 fn = f.children[v.id]
             elif isinstance(v, ast.Lambda):
                 fn = ctx.tree.func_of_node.get(id(v))
+            elif isinstance(v, ast.Call):
+                # a factory method of the interpreter: returns None when no limit is configured, else a closure
+                # comparing the clock with that interpreter's start_time/time_limit
+                cs = ctx.cg.site_of_call.get(id(v))
+                facs = [t_ for t_ in (cs.targets if cs and cs.kind in ("resolved", "byname") else []) if deadline_factory(ctx, t_)]
+                if cs and cs.targets and len(facs) == len(cs.targets):
+                    closures += 1
+                    for test, pol in guards_of(n, _lca(n, site) or f.node):
+                        for a, p in atoms(test, pol):
+                            txt = norm(a)
+                            if "time_limit" not in txt and "_current_vm" not in txt:
+                                probs.append(f"deadline callback only installed under unrelated condition '{txt}'")
+                    continue
             if fn is None:
                 probs.append(f"{name} = {short(v, 50)} is neither None nor a local deadline closure")
                 continue
@@ -504,6 +609,30 @@ def rule_regex_gets_callback(ctx, rep, rid: str) -> None:
                 rep.ok(rid, key, {"site": loc, "callback": f"local {arg.id}: None or deadline closure"})
             continue
         rep.bad(rid, key, f"deadline callback argument {short(arg, 40)} is not a local bound to a deadline closure", loc)
+    # callbacks installed later (a regex object adopted by the evaluation that runs it): same requirement
+    for f in t.funcs:
+        if id(f) not in sr or f.module.name.startswith("regex"):
+            continue
+        for n in f.own_nodes():
+            arg = None
+            if isinstance(n, ast.Call) and isinstance(n.func, ast.Attribute) and n.func.attr == "set_poll_callback" and n.args:
+                arg = n.args[0]
+            elif isinstance(n, ast.Assign) and any(isinstance(tg, ast.Attribute) and tg.attr in ("_poll_callback", "poll_callback") for tg in n.targets):
+                arg = n.value
+            if arg is None:
+                continue
+            key = f"{f.qual}:adopt:{short(arg, 30)}"
+            loc = f"{f.module.rel}:{n.lineno}"
+            okc = False
+            if isinstance(arg, ast.Call):
+                cs2 = ctx.cg.site_of_call.get(id(arg))
+                okc = bool(cs2 and cs2.targets and all(deadline_factory(ctx, t_) for t_ in cs2.targets))
+            elif isinstance(arg, ast.Name) and arg.id in f.params():
+                okc = True
+            if okc:
+                rep.ok(rid, key)
+            else:
+                rep.bad(rid, key, f"{f.qual} installs {short(arg, 40)} as the regex engine's poll callback: not the running interpreter's deadline (a match started afterwards is not bounded by the time limit)", loc)
     # forwarding links inside the regex package
     init = t.find_method(facade, "__init__")
     stored = None
@@ -747,7 +876,33 @@ def rule_one_deadline(ctx, rep, rid: str) -> None:
         key = f"{m.qual}:stamp start_time"
         loc = f"{m.module.rel}:{n.lineno}"
         g = [norm(a) for tst, pol in guards_of(n, m.node) for a, p in atoms(tst, pol)]
-        if nested and not any("self.start_time is None" in x for x in g):
+        guarded = any("self.start_time is None" in x for x in g)
+        if not guarded:
+            # a stamping helper is fine when every call of it is guarded by `<receiver>.start_time is None`
+            sites = [cs for cs in ctx.cg.sites if cs.kind == "resolved" and any(t_ is m for t_ in cs.targets)]
+            def site_ok(cs) -> bool:
+                if any(".start_time is None" in norm(a) for tst, pol in guards_of(cs.call, cs.func.node) for a, p in atoms(tst, pol) if p):
+                    return True
+                # a freshly constructed interpreter that does not inherit a clock on this path
+                fn_ = cs.call.func
+                if isinstance(fn_, ast.Attribute) and isinstance(fn_.value, ast.Name):
+                    v = fn_.value.id
+                    g_ = cs.func
+                    fresh = any(isinstance(x, ast.Assign) and any(isinstance(t_, ast.Name) and t_.id == v for t_ in x.targets) and isinstance(x.value, ast.Call) and ctx.cg._class_visible(call_name(x.value) or "", g_) is m.cls for x in g_.own_nodes())
+                    if fresh:
+                        inh = [x for x in g_.own_nodes() if isinstance(x, ast.Assign) and any(norm(t_) == f"{v}.start_time" for t_ in x.targets)]
+                        if not inh:
+                            return True
+                        # the inheriting assignment sits in the other branch of the same `if`
+                        for x in inh:
+                            p_ = getattr(x, "_parent", None)
+                            if isinstance(p_, ast.If) and any(x is b for b in p_.body) and any(cs.call in list(ast.walk(o)) for o in p_.orelse):
+                                return True
+                return False
+
+            if sites and all(site_ok(cs) for cs in sites):
+                guarded = True
+        if nested and not guarded:
             rep.bad(rid, key, f"{m.qual} stamps start_time unconditionally, overwriting a deadline inherited by a nested interpreter", loc)
         else:
             rep.ok(rid, key, {"guards": g})
